@@ -1,15 +1,67 @@
 (* C09 - results are a function of workspace and configuration, not of scheduling.
-   Only statements closed by `exact` + Print Assumptions live here (+ vm_compute witnesses). *)
+   Only statements closed by `exact` + Print Assumptions live here (+ vm_compute witnesses).
+   Since fixes/C09-deterministic-order.diff (in /repo) the two order-dependent choices are repaired: the FULL statements
+   C09_merge_perm_full and C09_best_match_perm_full hold without a uniqueness guard for the repaired variants
+   (fx = true, the ones the drivers run); the variants before the repair (fx = false / explicit orders) keep their
+   exact characterisation and their refutations (..._prefix_refuted). *)
 From Coq Require Import List NArith ZArith Bool Lia Permutation.
-From LH Require Import Base.Bytes Model.FileIndex Model.ModulePath Model.Merge Proofs.MergeProofs.
+From LH Require Import Base.Bytes Model.FileIndex Model.ModulePath Model.Merge Proofs.MergeProofs Proofs.MergeDet.
 Import ListNotations.
 Local Open Scope N_scope.
 
-(* ---- the workspace-wide global table (third pass): files and, inside a file, globals are visited in map order ---- *)
+(* ---- the workspace-wide global table (third pass) ----
+   `merge items` replays the loop body of generateAllGlobalMaps (JudgeShouldInsertGlobalInfo + InsertThirdGlobalGMaps)
+   along an explicit visiting order; `merge_ws fx globals_of files` is the whole function: fx = false visits the files
+   in the order of the Go map iteration (the code before fixes/C09-deterministic-order.diff), fx = true in sorted
+   name order (the repaired code, the one the drivers run). *)
 
-(* full statement: the winner of every name is the same whatever the visiting order *)
-Definition C09_merge_full : Prop :=
+(* full statement for the code BEFORE the repair (refuted below): the winner of every name is the same whatever the
+   visiting order *)
+Definition C09_merge_prefix_full : Prop :=
   forall items items', Permutation items items' -> forall n, winner (merge items) n = winner (merge items') n.
+
+(* FULL statement, repaired code: whatever order the map iteration hands out the files in, the winner of every global
+   is the same (no guard at all: even the tables are equal) *)
+Theorem C09_merge_perm_full : forall globals_of files files', Permutation files files' ->
+  forall n, winner (merge_ws true globals_of files) n = winner (merge_ws true globals_of files') n.
+Proof. exact merge_ws_perm_files. Qed.
+Print Assumptions C09_merge_perm_full.
+
+Theorem C09_merge_perm_table : forall globals_of files files', Permutation files files' ->
+  merge_ws true globals_of files = merge_ws true globals_of files'.
+Proof. exact merge_ws_perm_table. Qed.
+Print Assumptions C09_merge_perm_table.
+
+(* both map levels at once: the files in any order AND the globals of every file in any order (GlobalMaps is a Go map
+   keyed by the name: map_shaped is that representation invariant, a boolean) *)
+Theorem C09_merge_perm_full_inner : forall globals_of globals_of' files files',
+  Permutation files files' -> map_shaped globals_of files = true ->
+  (forall k, In k files -> Permutation (globals_of k) (globals_of' k)) ->
+  forall n, winner (merge_ws true globals_of files) n = winner (merge_ws true globals_of' files') n.
+Proof. exact merge_ws_perm_full. Qed.
+Print Assumptions C09_merge_perm_full_inner.
+
+(* sort.Strings on the collected keys: a function of the multiset of keys *)
+Theorem C09_sort_paths_perm : forall l l', Permutation l l' -> sort_paths l = sort_paths l'.
+Proof. exact sort_paths_perm_eq. Qed.
+Print Assumptions C09_sort_paths_perm.
+
+(* the repair keeps every preference rule: the repaired visit is one of the orders the old code could take, a least
+   owner still wins, and in general the winner is a definition that no other definition beats *)
+Theorem C09_merge_fixed_least : forall globals_of files n x,
+  NoDup (map gv_file (vars_of n (flat_map globals_of files))) -> least (vars_of n (flat_map globals_of files)) x ->
+  winner (merge_ws true globals_of files) n = Some x.
+Proof. exact merge_ws_fixed_least. Qed.
+Print Assumptions C09_merge_fixed_least.
+
+Theorem C09_merge_fixed_minimal : forall globals_of files n x,
+  NoDup (map gv_file (vars_of n (flat_map globals_of files))) -> winner (merge_ws true globals_of files) n = Some x ->
+  In x (vars_of n (flat_map globals_of files)) /\
+  forall w, In w (vars_of n (flat_map globals_of files)) -> beats w x = false.
+Proof. exact merge_ws_fixed_minimal. Qed.
+Print Assumptions C09_merge_fixed_minimal.
+
+(* ---- the loop body along explicit orders = everything the code before the repair could do ---- *)
 
 (* T1 statement of the plan: files in any order, every global owned by one file *)
 Theorem C09_merge_perm : forall fs fs', Permutation fs fs' -> single_owner (flatten fs) ->
@@ -66,24 +118,86 @@ Definition v_a : gvar := mk_gvar [97; 46; 108; 117; 97] 0 0 1.    (* a.lua, func
 Definition v_b : gvar := mk_gvar [98; 46; 108; 117; 97] 0 0 1.    (* b.lua *)
 Definition v_c : gvar := mk_gvar [99; 46; 108; 117; 97] 0 1 3.    (* c.lua, inside a block, line 3 *)
 Definition v_d : gvar := mk_gvar [100; 46; 108; 117; 97] 0 0 5.   (* d.lua, top level, line 5 *)
-Theorem C09_merge_refuted :
+(* the workspace of the witnesses: which file holds which globals *)
+Definition f_a : list N := [97; 46; 108; 117; 97].
+Definition f_b : list N := [98; 46; 108; 117; 97].
+Definition f_c : list N := [99; 46; 108; 117; 97].
+Definition f_d : list N := [100; 46; 108; 117; 97].
+Definition w_globals (k : list N) : list (list N * gvar) :=
+  if beq_bytes k f_a then [(n_g, v_a)] else if beq_bytes k f_b then [(n_g, v_b)]
+  else if beq_bytes k f_c then [(n_g, v_c)] else if beq_bytes k f_d then [(n_g, v_d)] else [].
+
+Theorem C09_merge_prefix_refuted :
   (let items := [(n_g, v_a); (n_g, v_b)] in let items' := [(n_g, v_b); (n_g, v_a)] in
    Permutation items items' /\ no_least n_g items = true /\
    winner (merge items) n_g = Some v_a /\ winner (merge items') n_g = Some v_b) /\
   (* (scope 1, line 3) against (scope 0, line 5): neither beats the other, first visited wins either way *)
   (winner (merge [(n_g, v_c); (n_g, v_d)]) n_g = Some v_c /\ winner (merge [(n_g, v_d); (n_g, v_c)]) n_g = Some v_d) /\
-  ~ C09_merge_full.
+  ~ C09_merge_prefix_full /\
+  (* the same through the whole function before the repair: the map order of the two files decides *)
+  (Permutation [f_a; f_b] [f_b; f_a] /\
+   winner (merge_ws false w_globals [f_a; f_b]) n_g = Some v_a /\
+   winner (merge_ws false w_globals [f_b; f_a]) n_g = Some v_b) /\
+  ~ (forall globals_of files files', Permutation files files' ->
+       forall n, winner (merge_ws false globals_of files) n = winner (merge_ws false globals_of files') n).
 Proof.
   split; [cbv zeta; split; [apply perm_swap|repeat split; vm_compute; reflexivity]|].
   split; [split; vm_compute; reflexivity|].
-  intros H. specialize (H [(n_g, v_a); (n_g, v_b)] [(n_g, v_b); (n_g, v_a)] (perm_swap _ _ _) n_g).
-  vm_compute in H. discriminate.
+  split.
+  { intros H. specialize (H [(n_g, v_a); (n_g, v_b)] [(n_g, v_b); (n_g, v_a)] (perm_swap _ _ _) n_g).
+    vm_compute in H. discriminate. }
+  split; [split; [apply perm_swap|split; vm_compute; reflexivity]|].
+  intros H. specialize (H w_globals [f_a; f_b] [f_b; f_a] (perm_swap _ _ _) n_g). vm_compute in H. discriminate.
 Qed.
-Print Assumptions C09_merge_refuted.
+Print Assumptions C09_merge_prefix_refuted.
 
-(* ---- best-match module candidate ---- *)
-Definition C09_best_match_full : Prop :=
-  forall cur refer cs cs', Permutation cs cs' -> first_max cur refer cs' = first_max cur refer cs.
+(* regression on the old witnesses: the repaired code answers the same in both orders (a.lua is visited first; in the
+   second pair c.lua is) *)
+Example C09_merge_witness_fixed :
+  winner (merge_ws true w_globals [f_a; f_b]) n_g = Some v_a /\
+  winner (merge_ws true w_globals [f_b; f_a]) n_g = Some v_a /\
+  winner (merge_ws true w_globals [f_c; f_d]) n_g = Some v_c /\
+  winner (merge_ws true w_globals [f_d; f_c]) n_g = Some v_c /\
+  winner (merge_ws true w_globals [f_d; f_b; f_c; f_a]) n_g = Some v_a /\
+  sort_paths [f_d; f_b; f_c; f_a] = [f_a; f_b; f_c; f_d] /\
+  map_shaped w_globals [f_d; f_b; f_c; f_a] = true.
+Proof. repeat split; vm_compute; reflexivity. Qed.
+
+(* ---- best-match module candidate ----
+   best_match fx cur refer cs: the file GetBestMatchReferFile answers for the candidates cs (in the order the map
+   iteration produced them); fx = false: before the repair (first_max = a stable sort; the unstable sort.Sort may
+   answer any element of argmax_set); fx = true: Less breaks score ties by the path. *)
+
+(* FULL statement, repaired code: the chosen file is the same for every order of the candidates - no uniqueness
+   guard, duplicates allowed *)
+Theorem C09_best_match_perm_full : forall cur refer cs cs', Permutation cs cs' ->
+  best_match true cur refer cs' = best_match true cur refer cs.
+Proof. exact best_match_perm_full. Qed.
+Print Assumptions C09_best_match_perm_full.
+
+(* whatever sort.Sort does with the repaired Less: the head of ANY arrangement of the candidates in which no later
+   element is Less than the head is the model's answer (so the answer does not depend on the sort algorithm either) *)
+Theorem C09_sort_head_fixed : forall cur refer cs sorted h rest,
+  Permutation sorted cs -> sorted = h :: rest ->
+  (forall c, In c rest -> less_fx cur refer c h = false) ->
+  best_match true cur refer cs = Some h.
+Proof. exact sort_head_fixed. Qed.
+Print Assumptions C09_sort_head_fixed.
+
+(* the repair keeps the score preference: the answer is a best-scored candidate, and there is one iff there is a
+   candidate *)
+Theorem C09_best_match_fixed_argmax : forall cur refer cs c,
+  best_match true cur refer cs = Some c -> In c (argmax_set cur refer cs).
+Proof. exact best_match_fixed_argmax. Qed.
+Print Assumptions C09_best_match_fixed_argmax.
+
+Theorem C09_best_match_fixed_none : forall cur refer cs, best_match true cur refer cs = None <-> cs = [].
+Proof. exact best_match_fixed_none. Qed.
+Print Assumptions C09_best_match_fixed_none.
+
+(* full statement for the code BEFORE the repair (refuted below) *)
+Definition C09_best_match_prefix_full : Prop :=
+  forall cur refer cs cs', Permutation cs cs' -> best_match false cur refer cs' = best_match false cur refer cs.
 
 Theorem C09_best_match_unique : forall cur refer cs cs', unique_max cur refer cs -> Permutation cs cs' ->
   first_max cur refer cs' = first_max cur refer cs.
@@ -103,15 +217,25 @@ Print Assumptions C09_sort_head_argmax.
 Definition c_a_m : list N := [47;119;115;47;97;47;109;46;108;117;97].
 Definition c_b_m : list N := [47;119;115;47;98;47;109;46;108;117;97].
 Definition c_cur : list N := [47;119;115;47;99;47;120;46;108;117;97].
-Theorem C09_best_match_refuted :
+Theorem C09_best_match_prefix_refuted :
   calc_score c_cur [109] c_a_m = calc_score c_cur [109] c_b_m /\
-  first_max c_cur [109] [c_a_m; c_b_m] = Some c_a_m /\ first_max c_cur [109] [c_b_m; c_a_m] = Some c_b_m /\
-  ~ C09_best_match_full.
+  best_match false c_cur [109] [c_a_m; c_b_m] = Some c_a_m /\
+  best_match false c_cur [109] [c_b_m; c_a_m] = Some c_b_m /\
+  ~ C09_best_match_prefix_full.
 Proof.
   repeat split; try (vm_compute; reflexivity).
   intros H. specialize (H c_cur [109] [c_a_m; c_b_m] [c_b_m; c_a_m] (perm_swap _ _ _)). vm_compute in H. discriminate.
 Qed.
-Print Assumptions C09_best_match_refuted.
+Print Assumptions C09_best_match_prefix_refuted.
+
+(* regression on the old witness: the repaired code answers /ws/a/m.lua in both orders *)
+Example C09_best_match_witness_fixed :
+  best_match true c_cur [109] [c_a_m; c_b_m] = Some c_a_m /\
+  best_match true c_cur [109] [c_b_m; c_a_m] = Some c_a_m /\
+  (* a better-scored candidate still wins against a smaller path: /ws/c/m.lua shares the directory of the referrer *)
+  best_match true c_cur [109] [c_a_m; [47;119;115;47;99;47;109;46;108;117;97]; c_b_m]
+    = Some [47;119;115;47;99;47;109;46;108;117;97].
+Proof. repeat split; vm_compute; reflexivity. Qed.
 
 (* ---- worker pools: per-file results stored under the file's key, any completion order ---- *)
 Theorem C09_arrival_perm : forall (R : Type) (arr arr' : list (list N * R)),
